@@ -68,7 +68,7 @@ def run(tier):
     scs = []
     for i in range(nsc):
         n = rnd.randrange(1, 7)
-        msgs = [rnd.choice([0, 1, 2, 3, 5, 8, 8, 40, 50]) for _ in range(n)]
+        msgs = [rnd.choice([0, 1, 2, 3, 5, 8, 8, 40, 50, 150]) for _ in range(n)]
         scs.append({"id": i, "seed": rnd.randrange(1 << 30), "msgs": msgs,
                     "pre": [rnd.choice([0, m, rnd.randrange(0, m + 1)]) for m in msgs],
                     "consumer": [rnd.choice(["block_on", "manual", "manual", "pool"]) for _ in range(n)]})
